@@ -102,6 +102,9 @@ def _worker(item):
                             res['counters']['nontrivial'] += 1
                         if index:
                             res['counters']['with_index'] += 1
+                        if len(seq) == 1 and oc in ('valid', 'invalid'):
+                            k_ = 'accepted_shape_%d' % seq[0]
+                            res['counters'][k_] = res['counters'].get(k_, 0) + 1
                         if why is not None and len(res['violations']) < 25:
                             kinds = sorted(set(assign[o[3]] for c in calls for o in c if o[0] in ('C', 'C*')))
                             res['violations'].append({
@@ -134,6 +137,7 @@ def run(ctx):
     vac = []
     if not c.get('with_index'):
         vac.append('no program wrote an index file')
+    vac += W.shape_vacuity(c)
     if not (m['outcomes'].get('valid') or m['outcomes'].get('invalid')):
         vac.append('no accepted program')
     cov = {'states': len(m['distinct']), 'transitions': c['programs'], 'traces_validated_against_impl': c['programs'],
